@@ -82,6 +82,36 @@ const c13CardMultiget = `<?xml version="1.0" encoding="utf-8"?>
 
 const c13Proppatch = `<?xml version="1.0"?><D:propertyupdate xmlns:D="DAV:"><D:set><D:prop><D:displayname>x</D:displayname></D:prop></D:set><D:remove><D:prop><D:getetag/></D:prop></D:remove></D:propertyupdate>`
 
+// the dependencies' own decoders are the judges of "unparseable"; a text on which a decoder panics is
+// unparseable too (the go-ical decoder does, on a content line that ends inside a parameter)
+func icalParses(b string) (ok bool) {
+	defer func() {
+		if recover() != nil {
+			ok = false
+		}
+	}()
+	_, err := ical.NewDecoder(strings.NewReader(b)).Decode()
+	return err == nil
+}
+
+func vcardParses(b string) (ok bool) {
+	defer func() {
+		if recover() != nil {
+			ok = false
+		}
+	}()
+	_, err := vcard.NewDecoder(strings.NewReader(b)).Decode()
+	return err == nil
+}
+
+// panicAt extracts the "[at function]" suffix recorded with a recovered panic, for use in a signature.
+func panicAt(detail string) string {
+	if i := strings.LastIndex(detail, "[at "); i >= 0 && strings.HasSuffix(detail, "]") {
+		return "/at=" + detail[i+4:len(detail)-1]
+	}
+	return ""
+}
+
 func c13Seeds() []c13Seed {
 	var out []c13Seed
 	xmlH := func() map[string]string { return map[string]string{"Content-Type": "application/xml; charset=utf-8"} }
@@ -302,11 +332,11 @@ func c13Mutants(seeds []c13Seed, pairs bool) []c13Mutant {
 						tag = "unparseable-xml"
 					}
 				case "ical":
-					if _, err := ical.NewDecoder(strings.NewReader(q.Body)).Decode(); err != nil {
+					if !icalParses(q.Body) {
 						tag = "unparseable-icalendar"
 					}
 				case "vcard":
-					if _, err := vcard.NewDecoder(strings.NewReader(q.Body)).Decode(); err != nil {
+					if !vcardParses(q.Body) {
 						tag = "unparseable-vcard"
 					}
 				}
@@ -490,11 +520,9 @@ func c13Mutants(seeds []c13Seed, pairs bool) []c13Mutant {
 			lines := strings.SplitAfter(body, "\r\n")
 			rejects := func(b string) bool {
 				if s.BodyKind == "ical" {
-					_, err := ical.NewDecoder(strings.NewReader(b)).Decode()
-					return err != nil
+					return !icalParses(b)
 				}
-				_, err := vcard.NewDecoder(strings.NewReader(b)).Decode()
-				return err != nil
+				return !vcardParses(b)
 			}
 			for i := range lines {
 				del := strings.Join(append(append([]string(nil), lines[:i]...), lines[i+1:]...), "")
@@ -724,7 +752,11 @@ func init() {
 				s.Sample(m)
 			}
 			if clause != "" {
-				s.Violate(engine.Violation{Sig: fmt.Sprintf("C13/%s/%s.%s/%s/%s", clause, m.Handler, m.Req.Method, m.Tag, opClass(m.Op)), Clause: clause, Index: int64(i), Kind: "C13", Case: m,
+				at := ""
+				if clause == "panic" {
+					at = panicAt(detail)
+				}
+				s.Violate(engine.Violation{Sig: fmt.Sprintf("C13/%s/%s.%s/%s/%s", clause, m.Handler, m.Req.Method, m.Tag, opClass(m.Op)) + at, Clause: clause, Index: int64(i), Kind: "C13", Case: m,
 					Expected: "no panic; malformed => 4xx and no mutation", Observed: detail})
 			}
 		})
